@@ -96,15 +96,17 @@ func runC10(c *Ctx) {
 				}
 			}
 		})
-		c.mustFollowIter(fn, "requests dequeued for this height (len(newReqs) > 0)", c.successEdges(g), handover, "reporter.ProcessBlock(.., newReqs, ..) / per-request deliver", quitCut, 1)
-		// ... and from the dequeue itself: between taking the requests out of
-		// the queue and the emptiness test nothing may fail or leave the
-		// iteration (a return there drops requests that are in no queue and not
-		// yet known to the reporter)
+		// (the slice is one value: where one test found it non-empty, the
+		// "empty" edge of every other test of it cannot be taken)
 		emptyCut := ir.Cut{}
 		for _, s := range g.sites {
 			emptyCut[s.br.Other()] = true
 		}
+		c.mustFollowIter(fn, "requests dequeued for this height (len(newReqs) > 0)", c.successEdges(g), handover, "reporter.ProcessBlock(.., newReqs, ..) / per-request deliver", ir.Union(quitCut, emptyCut), 1)
+		// ... and from the dequeue itself: between taking the requests out of
+		// the queue and the emptiness test nothing may fail or leave the
+		// iteration (a return there drops requests that are in no queue and not
+		// yet known to the reporter)
 		c.mustFollowIter(fn, "the dequeue of this height's requests", []start{afterInstr(c, dq[0])}, handover, "reporter.ProcessBlock(.., newReqs, ..) / per-request deliver (or the slice is empty)", ir.Union(quitCut, emptyCut), 1)
 		c.verdict(len(quitCut) >= 2, c.nm(fn)+" | tabled shutdown exits are select arms on UtxoScanner.quit", c.P.Pos(fn.Pos()), fmt.Sprintf("%d quit arms pruned", len(quitCut)), "no shutdown polls found")
 		// supporting obligation of the exception: Result has a quit arm and the request's quit is the scanner's
